@@ -834,7 +834,20 @@ _BTree_set(BTree *self, PyObject *keyarg, PyObject *value,
         }
         if (toobig) {
             if (BTree_grow(self, min, noval) < 0)
+            {
+                /* BTree_grow may have mutated self all the same: the child
+                 * is split and hangs in self when only the split of the
+                 * root that follows fails.  The key is stored, so self has
+                 * to be written like the nodes below it.
+                 */
+                PyObject *et, *ev, *tb;
+
+                PyErr_Fetch(&et, &ev, &tb);
+                if (PER_CHANGED(self) < 0)
+                    PyErr_Clear();
+                PyErr_Restore(et, ev, tb);
                 goto Error;
+            }
             changed = 1;        /* BTree_grow mutated self */
         }
         goto Done;      /* and status still == 1 */
